@@ -222,7 +222,7 @@ impl Check for C15 {
             "single thread: the schedule plays no role here, only the read-fault sequence".into(),
         ]
     }
-    fn judge_abnormal(&self, what: &str) -> Option<Violation> {
+    fn judge_abnormal(&self, _case: &Case, what: &str) -> Option<Violation> {
         if what.contains("budget") {
             Some(Violation { class: "unbounded".into(), detail: format!("loading does not terminate: {}", what) })
         } else if what.contains("deadlock") {
